@@ -33,7 +33,9 @@ impl Drop for Big {
 pub struct ScaleCase {
     /// 0 ring, 1 ring with chords, 2 clique, 3 ring with self-adoptions and chords,
     /// 4 hub adopting n-1 spokes (zero-count-with-adoptions teardown of the hub),
-    /// 5 two objects with n parallel adoptions and n unadopt/adopt churn rounds
+    /// 5 two objects with n parallel adoptions and n unadopt/adopt churn rounds,
+    /// 6 hub adopting n-1 spokes that each adopt the hub back (collected through
+    /// the trace; n-1 links pending on the worklist at once)
     pub shape: u8,
     /// size selector, mapped log-uniformly onto [2, max_n(tier, shape)]
     pub size: u16,
@@ -57,7 +59,7 @@ fn max_n(tier: Tier, shape: u8) -> f64 {
 }
 
 pub fn n_of(c: &ScaleCase, tier: Tier) -> usize {
-    let mx = max_n(tier, c.shape % 6);
+    let mx = max_n(tier, c.shape % 7);
     let f = c.size as f64 / 65535.0;
     let n = (2.0f64.ln() + f * (mx.ln() - 2.0f64.ln())).exp();
     (n.round() as usize).max(2)
@@ -76,7 +78,7 @@ unsafe fn build(c: &ScaleCase, n: usize) -> (Box<Rc<Big>>, usize, usize) {
     slot[0] = &*h0 as *const Rc<Big>;
     let mut pairs = std::collections::HashSet::new();
     let mut adoptions = 0usize;
-    let shape = c.shape % 6;
+    let shape = c.shape % 7;
     if shape == 4 {
         // hub 0 owns and adopts n-1 spokes (moved handles)
         let h0r: &Rc<Big> = &*slot[0];
@@ -87,6 +89,22 @@ unsafe fn build(c: &ScaleCase, n: usize) -> (Box<Rc<Big>>, usize, usize) {
             h0r.next.borrow_mut().push(h);
             pairs.insert((0, k));
             adoptions += 1;
+        }
+        return (h0, pairs.len(), adoptions);
+    }
+    if shape == 6 {
+        let h0r: &Rc<Big> = &*slot[0];
+        *h0r.next.borrow_mut() = Vec::with_capacity(n + CAP);
+        for k in 1..n {
+            let h = mk();
+            Rc::adopt_unchecked(h0r, &h);
+            let back = Rc::clone(h0r);
+            Rc::adopt_unchecked(&h, &back);
+            h.next.borrow_mut().push(back);
+            h0r.next.borrow_mut().push(h);
+            pairs.insert((0, k));
+            pairs.insert((k, 0));
+            adoptions += 2;
         }
         return (h0, pairs.len(), adoptions);
     }
@@ -200,7 +218,7 @@ pub fn scaleprobe_cmd(args: &[String]) -> i32 {
         drop(*h0);
         let d = DESTROYED.load(Ordering::Relaxed);
         println!("destroyed={} pairs={} adoptions={}", d, pairs, adoptions);
-        let expect = if c.shape % 6 == 5 { 2 } else { n };
+        let expect = if c.shape % 7 == 5 { 2 } else { n };
         if d != expect {
             return 3;
         }
@@ -311,6 +329,7 @@ fn ir_probe(c: &ScaleCase, small: u32, big: u32) -> CaseResult {
 pub const L_IR: u32 = 6;
 pub const L_HUB: u32 = 7;
 pub const L_CHURN: u32 = 8;
+pub const L_MUTUAL: u32 = 9;
 
 pub struct ScaleKind;
 
@@ -324,7 +343,7 @@ pub const L_HUGE: u32 = 5;
 impl Kind for ScaleKind {
     type Case = ScaleCase;
     fn strategy(_id: &str, _tier: Tier, _variant: u64) -> BoxedStrategy<ScaleCase> {
-        (0u8..6, any::<u16>(), vec((any::<u32>(), any::<u32>()), 0..48), vec(any::<u32>(), 0..16), any::<bool>())
+        (0u8..7, any::<u16>(), vec((any::<u32>(), any::<u32>()), 0..48), vec(any::<u32>(), 0..16), any::<bool>())
             .prop_map(|(shape, size, chords, selfs, parallel)| ScaleCase { shape, size, chords, selfs, parallel, probe: None })
             .boxed()
     }
@@ -366,7 +385,7 @@ impl Kind for ScaleKind {
             sh.counters[24] = cn[1] as u64;
             sh.counters[25] = cn[2] as u64;
             sh.counters[26] = cn[3] as u64;
-            let expect = if c.shape % 6 == 5 { 2 } else { n };
+            let expect = if c.shape % 7 == 5 { 2 } else { n };
             if d != expect {
                 violate(View::Scale, &format!("orphaned group of {} objects: only {} were destroyed by the final drop", expect, d));
             }
@@ -390,32 +409,33 @@ impl Kind for ScaleKind {
             if n >= 100_000 {
                 l |= 1 << L_HUGE;
             }
-            l |= 1 << match c.shape % 6 {
+            l |= 1 << match c.shape % 7 {
                 0 => L_RING,
                 1 => L_CHORDS,
                 2 => L_CLIQUE,
                 3 => L_SELF,
                 4 => L_HUB,
-                _ => L_CHURN,
+                5 => L_CHURN,
+                _ => L_MUTUAL,
             };
             sh.labels = l;
         });
         // a stack overflow on the small-stack thread cannot run the fault handler
         if r.outcome == exec::Outcome::OtherView || (r.outcome == exec::Outcome::Violation && r.signal != 0) {
             r.outcome = exec::Outcome::Violation;
-            r.msg = format!("{} (N={}, shape {}): the process died during the final drop; stack overflow on the 128 KiB stack is the expected cause", r.msg, n, c.shape % 6);
+            r.msg = format!("{} (N={}, shape {}): the process died during the final drop; stack overflow on the 128 KiB stack is the expected cause", r.msg, n, c.shape % 7);
         }
-        let big = r.labels & (1 << L_BIG) != 0 || (c.shape % 6 == 2 && n >= 40);
+        let big = r.labels & (1 << L_BIG) != 0 || (c.shape % 7 == 2 && n >= 40);
         r.nontrivial = big;
         r
     }
     fn compact(c: &ScaleCase) -> String {
         if let Some((a, b)) = c.probe {
-            return format!("instruction probe shape={} N={} vs N={} chords={} selfs={}", ["ring", "ring+chords", "clique", "ring+self+chords", "hub", "parallel+churn"][(c.shape % 6) as usize], a, b, c.chords.len(), c.selfs.len());
+            return format!("instruction probe shape={} N={} vs N={} chords={} selfs={}", ["ring", "ring+chords", "clique", "ring+self+chords", "hub", "parallel+churn", "mutual hub"][(c.shape % 7) as usize], a, b, c.chords.len(), c.selfs.len());
         }
         format!(
             "shape={} size_sel={} (N quick={} thorough={}) chords={} selfs={} parallel={}",
-            ["ring", "ring+chords", "clique", "ring+self+chords", "hub", "parallel+churn"][(c.shape % 6) as usize],
+            ["ring", "ring+chords", "clique", "ring+self+chords", "hub", "parallel+churn", "mutual hub"][(c.shape % 7) as usize],
             c.size,
             n_of(c, Tier::Quick),
             n_of(c, Tier::Thorough),
@@ -425,7 +445,7 @@ impl Kind for ScaleKind {
         )
     }
     fn label_names() -> Vec<String> {
-        let mut v: Vec<String> = ["N>=1000", "ring", "ring_with_chords", "clique", "ring_with_self_adoptions", "N>=100000", "instruction_count_probe", "hub_zero_count_teardown", "parallel_adoptions_with_churn"].iter().map(|s| s.to_string()).collect();
+        let mut v: Vec<String> = ["N>=1000", "ring", "ring_with_chords", "clique", "ring_with_self_adoptions", "N>=100000", "instruction_count_probe", "hub_zero_count_teardown", "parallel_adoptions_with_churn", "mutual_hub"].iter().map(|s| s.to_string()).collect();
         while v.len() < 64 {
             v.push(String::new());
         }
